@@ -793,7 +793,7 @@ class Interp:
             return Ext('builtins.' + node.id)
         if node.id in ('isinstance', 'hasattr', 'getattr', 'print', 'type', 'id', 'hash', 'open', 'map',
                        'filter', 'iter', 'next', 'ValueError', 'TypeError', 'KeyError', 'NotImplementedError',
-                       'Exception', 'KeyboardInterrupt', 'IndexError', 'RuntimeError', 'object', 'setattr'):
+                       'Exception', 'KeyboardInterrupt', 'IndexError', 'RuntimeError', 'object', 'setattr', 'slice'):
             return Ext('builtins.' + node.id)
         raise Unsupported(node, f'unbound name {node.id}')
 
@@ -1271,6 +1271,18 @@ class Interp:
 
     def call_ext(self, func: Ext, args, kwargs, node, env):
         name = func.name
+        if name in ('copy.deepcopy', 'copy.copy') and len(args) == 1:
+            v = args[0]
+            if _contains_top(v):
+                return TOP
+            if isinstance(v, (dict, list, set)) or (HOST_TYPES and isinstance(v, HOST_TYPES)):
+                import copy as _copy
+                try:
+                    return _copy.deepcopy(v) if name.endswith('deepcopy') else _copy.copy(v)
+                except Exception:
+                    return TOP
+            if isinstance(v, _CONCRETE):
+                return v                      # immutable
         if name.startswith('builtins.'):
             b = name[len('builtins.'):]
             if b in _SAFE_BUILTINS:
@@ -1308,6 +1320,10 @@ class Interp:
                     return r
                 except (TypeError, ValueError) as e:
                     raise PathRaise(type(e).__name__, node)
+            if b == 'slice' and 1 <= len(args) <= 3 and not kwargs:
+                if len(args) == 1:
+                    return SliceV(None, args[0], None)
+                return SliceV(args[0], args[1], args[2] if len(args) == 3 else None)
             if b in ('map', 'filter') and len(args) == 2:
                 f, seq = args
                 if seq is TOP:
